@@ -262,18 +262,21 @@ fn check_type<T: Jetty>(tname: &str, ctx: &Ctx, shard: usize, nshards: usize, ti
         // (i) one-hot pairs: every (monomial, monomial) interaction, both binary multiplicative ops
         for i in 0..n {
             for j in 0..n {
-                for variant in 0..2u32 {
+                // variants: 0 all parts present, 1 random presence masks, 2 / 3 the innermost real part of
+                // the left / right operand is exactly zero (all parts present): `is_zero()` on a dual
+                // number sees only that, whatever the derivative parts carry
+                for variant in 0..4u32 {
                     idx += 1;
                     if idx % nshards as u64 != shard as u64 {
                         continue;
                     }
                     let (al, be) = (g.val(&mut rng, true), g.val(&mut rng, true));
-                    let a0 = g.val(&mut rng, true);
+                    let a0 = if variant == 2 { 0.0 } else { g.val(&mut rng, true) };
                     let asl = onehot(&bs, a0, i, al);
                     for op in [Op::Mul, Op::Div, Op::Add, Op::Sub, Op::SubAssign, Op::AddAssign, Op::MulAssign, Op::DivAssign] {
-                        let b0 = if matches!(op, Op::Div | Op::DivAssign) { g.pow2(&mut rng) } else { g.val(&mut rng, true) };
+                        let b0 = if matches!(op, Op::Div | Op::DivAssign) { g.pow2(&mut rng) } else if variant == 3 { 0.0 } else { g.val(&mut rng, true) };
                         let bsl = onehot(&bs, b0, j, be);
-                        let (ma, mb) = if variant == 0 { (0, 0) } else { (rng.next_u64(), rng.next_u64()) };
+                        let (ma, mb) = if variant != 1 { (0, 0) } else { (rng.next_u64(), rng.next_u64()) };
                         one_case::<T>(&mut acc, &mut st, tname, "one-hot", op, &shape, &bs, &asl, &bsl, ma, mb);
                     }
                 }
